@@ -17,6 +17,16 @@
 (*   obs.cache[b] 0 absent, 1 block b (same three checks) under b's key,   *)
 (*                G anything else; obs.cx entries under other keys.        *)
 (*   obs.banned[p] 1 if the ban store reports peer p banned.               *)
+(*   obs.fut[b]   1 if the STORED header of block b is dated more than two *)
+(*                hours ahead of the node's clock (an input class, constant *)
+(*                along a trace; the harness built the store that way).    *)
+(*                The statement quantifies over every stream of responses  *)
+(*                for a hash the client has a header for, so every clause  *)
+(*                below applies to such a target unchanged.  What the      *)
+(*                client does with the INTACT block of such a target       *)
+(*                (the code rejects it on the header's timestamp and bans  *)
+(*                the sender) is not judged: the statement neither demands *)
+(*                that a valid block be returned nor forbids that ban.     *)
 (* act = [op, tgt, k, b, p, res]:                                          *)
 (*   HeaderLookup (start of GetBlock(tgt); res err if the header is not    *)
 (*   known), CacheLookup (hit | miss), Submit, Resp (response of class k   *)
